@@ -180,8 +180,8 @@ def lines_with_loops(path):
             e = e.value
         if _is_each(e):
             add(e.args[0], loops + (norm(e.args[1]),), st)
-        elif isinstance(e, (ast.List, ast.Tuple)) and loops and False:
-            pass
+        elif isinstance(e, (ast.Tuple, ast.Dict)) and st is not None:
+            pass            # a row of a table being built, not a line of text
         else:
             out.append((e, loops, st))
     for ev in path.events:
